@@ -229,6 +229,15 @@ func init() {
 		}
 		return boundIs(treeOf(f), func(mn, mx *CNode, incl bool) bool { return big(mn) || big(mx) })
 	}
+	// K-json-bigfloat-bound: a FLOAT range bound that is integer-valued with 2^53 <= |v| <= 2^63: the decoder turns it into
+	// an int whose decimal text is not the float's shortest text
+	cp["bigfloat-range-bound"] = func(c *Case, f *Failure) bool {
+		big := func(n *CNode) bool {
+			v, ok := floatOf(n.leafPrim())
+			return ok && v == math.Trunc(v) && math.Abs(v) >= 9007199254740992 && math.Abs(v) <= 9223372036854775808
+		}
+		return boundIs(treeOf(f), func(mn, mx *CNode, incl bool) bool { return big(mn) || big(mx) })
+	}
 	// K-like-meta: a wildcard pattern containing a SIMILAR TO metacharacter besides the translated * and ?
 	cp["like-meta"] = func(c *Case, f *Failure) bool {
 		return treeOf(f).any(func(x *CNode) bool {
